@@ -44,8 +44,9 @@ package main
 //	            LAST pair for k (gx_map_lookup; the list is the sequence of stores that built the map), m[k] = v
 //	            replaces the first pair for k or appends (gx_map_set, Panic on a nil map), range m runs over the
 //	            keys in list order (Go leaves the order open: the theorems hold for every list).  The values of
-//	            CoerceMap are non-nil package functions (a nil CoerceFunc stored in the map is outside the
-//	            translation as it is outside the model).
+//	            CoerceMap are CoerceFunc values: option gx_CoerceFunc, None = a nil function stored in the map
+//	            (what config/sql.Coerce stores for a CoercePair whose Type is none of the constants);
+//	            fn, ok := m[k] gives the zero value (nil) and false where there is no entry.
 //	pointers    *Column / *bytes.Buffer are the value itself, threaded through: a function answers
 //	            outcome (r1 * .. * rn * out1 * ..) where the outs are its *bytes.Buffer arguments and the *Column
 //	            arguments / receiver it changes (syntactic analysis).  At a call the new values are stored back
@@ -174,6 +175,7 @@ Definition gx_map_lookup {V : Type} (m : option (list (bytes * V))) (k : bytes) 
   match m with Some l => gx_assoc_lookup l k | None => None end.
 Definition gx_map_set {V : Type} (m : option (list (bytes * V))) (k : bytes) (v : V) : outcome (option (list (bytes * V))) :=
   match m with Some l => Ok (Some (map_set l k v)) | None => Panic end.
+Definition gx_opt_or {T : Type} (o : option T) (d : T) : T := match o with Some x => x | None => d end.
 Definition gx_map_keys {V : Type} (m : option (list (bytes * V))) : list bytes :=
   match m with Some l => map fst l | None => [] end.
 (* v, ok := t.(T) *)
@@ -424,7 +426,7 @@ func gxResolve(p *pkgInfo, e ast.Expr, place string) *gxT {
 	case "CoerceFunc":
 		return gxCfn
 	case "map[string]CoerceFunc":
-		return gxMap(gxCfnV)
+		return gxMap(gxCfn)
 	case "map[string]types.DataSlice":
 		return gxMap(gxDSlice)
 	case "types.DataSlice":
@@ -1730,9 +1732,11 @@ func (t *gxTr) simple(st ast.Stmt, c *gxCtx) (string, bool) {
 				case *ast.IndexExpr: // fn, ok := m[k]
 					a, ta := t.expr(r.X, *c, &pre)
 					k, tk := t.expr(r.Index, *c, &pre)
-					if ta.k == "map" && ta.elem.k == "cfnv" && tk.k == "str" {
-						t1 := t.tmp()
-						return bind(wrap("let "+t1+" := gx_map_lookup "+a+" "+k+" in\n"), []string{t1, "(negb (gx_opt_isnil " + t1 + "))"}, []*gxT{gxCfn, gxBool})
+					if ta.k == "map" && tk.k == "str" {
+						if z, ok := ta.elem.zero(); ok {
+							t1 := t.tmp()
+							return bind(wrap("let "+t1+" := gx_map_lookup "+a+" "+k+" in\n"), []string{"(gx_opt_or " + t1 + " " + z + ")", "(negb (gx_opt_isnil " + t1 + "))"}, []*gxT{ta.elem, gxBool})
+						}
 					}
 					t.fail(st, "map lookup not understood: %s", t.src(r))
 					return "", true
